@@ -374,7 +374,7 @@ pub fn add_parts(rep: &mut Report, ctx: &Ctx) {
         "session_failed_rules",
         "ephemeral Session over a committed graph (init + 0..3 on-graph actions, scripted policy defined in the harness): 0..13 operations of Session::action publishing 1..3 commands and Session::receive of one command, each command's rule doing 0..4 inserts/deletes (incl. of live facts) and optionally failing after k of them. Oracle: flat map that applies an operation's writes only if every rule in it succeeded; after every operation every exact/prefix query of the universe inside the session equals the model, a failed action leaves nothing in the message sink, and a fresh session still sees the committed state. non-trivial = some rule wrote facts and then failed",
         scase,
-        ctx.pick(4_000, 100_000),
+        ctx.pick(8_000, 100_000),
         check,
     );
 }
